@@ -186,7 +186,7 @@ PROPS = {
         'suites': [{'name': 'buf', 'oracles': {'buf': 'o_buf'}, 'trivial_tags': [], 'vm_sample': 8},
                    {'name': 'pressure', 'oracles': {'loopfinal': 'o_loop'}, 'trivial_tags': ['plain'], 'vm_sample': 4}],
         'rule': 'operation sequences of 5-45 operations on ring.Buffer (initial sizes 0..5000), elastic.RingBuffer (pooled ring) and elastic.Buffer (static threshold 1..8192) through their exported APIs: Write, Writev, WriteByte, Peek(n) incl. n<=0, Discard, Read, ReadByte, Reset; sizes are chosen adaptively from the live state (exact fill, one off, distance to the static/dynamic threshold, 0, small/medium/large up to 9000 bytes) so that wrap-around, growth below and above the 4 KiB grow threshold and ring-to-list spill are hit; data bytes are a running counter so any reordering or corruption is visible. distinct = distinct (kind, parameter, operation list); non-trivial = all (every sequence has writes and drains)',
-        'explanation': 'Theorems over ALL operation sequences: ring.Buffer, elastic.RingBuffer and elastic.Buffer conform to an ideal FIFO byte queue - every Peek/Read result is the oldest bytes, every Discard count and every Buffered()/IsEmpty() is exact, for any initial capacity, any recycled-ring capacity and any static threshold (C19_ring_is_a_fifo, C19_elastic_ring_is_a_fifo, C19_elastic_buffer_is_a_fifo; refinement through a view of the circular buffer as empty / linear / wrapped segments; growth capacity proved sufficient incl. the 1.25x loop); and the users conn.write / conn.writev / eventloop.write conserve bytes for every kernel behaviour (C19_conn_conservation: accepted bytes ++ backlog = everything written, in order; the kernel's acceptance count is an oracle of each operation). One genuine defect repaired (WriteByte on a full ring >= 4 KiB wrote past the slice). The models are tied to the Go buffers by operation sequences on the exported APIs; an independent FIFO oracle is evaluated on the Go results. False alarm fixed while building: the oracle first demanded that elastic.Buffer.Peek(n) return exactly n bytes; it returns whole chunks (>= n), which its callers handle - the oracle and the theorem now state prefix + at-least-n.',
+        'explanation': 'Theorems over ALL operation sequences: ring.Buffer, elastic.RingBuffer and elastic.Buffer conform to an ideal FIFO byte queue - every Peek/Read result is the oldest bytes, every Discard count and every Buffered()/IsEmpty() is exact, for any initial capacity, any recycled-ring capacity and any static threshold (C19_ring_is_a_fifo, C19_elastic_ring_is_a_fifo, C19_elastic_buffer_is_a_fifo; refinement through a view of the circular buffer as empty / linear / wrapped segments; growth capacity proved sufficient incl. the 1.25x loop); and the users conn.write / conn.writev / eventloop.write conserve bytes for every kernel behaviour (C19_conn_conservation: accepted bytes ++ backlog = everything written, in order; the acceptance count of the kernel is an oracle of each operation). One genuine defect repaired (WriteByte on a full ring >= 4 KiB wrote past the slice). The models are tied to the Go buffers by operation sequences on the exported APIs; an independent FIFO oracle is evaluated on the Go results. False alarm fixed while building: the oracle first demanded that elastic.Buffer.Peek(n) return exactly n bytes; it returns whole chunks (>= n), which its callers handle - the oracle and the theorem now state prefix + at-least-n.',
         'assumptions': ['fewer than 2^31 bytes are written in total (small_size; Go int and the math.MaxInt32 substitution in Peek)', 'slices returned by Peek alias the buffer: callers must consume them before the next write (the harness copies them at once; eventloop.write does)', 'ReadFrom / WriteTo (io.Reader / io.Writer variants, unused by the proxy) and the byteslice pool internals are not modelled', 'the connection-level model (Model/ConnOut.v) is tied to connection.go only end to end, by the byte streams of the pressure suite (minimal socket buffers, late readers); EPOLLOUT re-arming (ModReadWrite / ModRead) is not modelled'],
     },
     'C10': {
